@@ -37,6 +37,8 @@ pub const RDB_RENAME_AFTER: u32 = 26;
 /// BGSAVE thread: first / last statement
 pub const BGSAVE_BEGIN: u32 = 27;
 pub const BGSAVE_END: u32 = 28;
+/// RDB loader: before every opcode it reads (lets a checker make loading take time)
+pub const RDB_LOAD_STEP: u32 = 29;
 /// Skip list: level draw; return 0 = draw randomly, l + 1 = use level l
 pub const SKIP_LEVEL: u32 = 30;
 
